@@ -1,8 +1,8 @@
-(* C05 - in-flight operations never share a message id; ids stay within 1..2^31-1. Pinned statements only. Allocator: for EVERY counter position and in-use set (not full), next_msgid returns an id in 1..MAX that is not in use and is the first free one in cyclic order after the counter (wrap MAX -> 1, in-use ids skipped). Connection level: in every history of fewer than 2^31-1 events the k-th operation started carries id k. Callers on several threads: taking the id (Alloc) and handing the request to the driver (Enqueue) are separate events - Start is exactly one followed at once by the other - so the histories quantified over include every interleaving in which other handles allocate AND send in between; an allocated, not yet sent operation is touched by nothing but its own Enqueue. *)
+(* C05 - in-flight operations never share a message id; ids stay within 1..2^31-1. Pinned statements only. Allocator: for EVERY counter position and in-use set (not full), next_msgid returns an id in 1..MAX that is not in use and is the first free one in cyclic order after the counter (wrap MAX -> 1, in-use ids skipped). Connection level: in every history of fewer than 2^31-1 events the k-th operation started carries id k. Callers on several threads: taking the id (Alloc) and handing the request to the driver (Enqueue) are separate events - Start is exactly one followed at once by the other - so the histories quantified over include every interleaving in which other handles allocate AND send in between; an allocated, not yet sent operation is touched by nothing but its own Enqueue. Past the wrap-around point (theorems c05_wrap_..): for EVERY history, of any length and under any set of repairs, and from any well-formed state (counter anywhere in 0..MAX) the reserved set never holds an id twice nor one outside 1..MAX, and an allocation never hands out an id reserved at that moment; what fails there is known finding F22. *)
 From RecordUpdate Require Import RecordUpdate.
 From Coq Require Import List ZArith NArith Lia Bool Arith.
 From Coq.Strings Require Import Byte.
-From L3 Require Import Msgid Conn ConnProofs ConnAlloc ConnNoWrap.
+From L3 Require Import Msgid Conn ConnProofs ConnAlloc ConnNoWrap ConnWrap.
 Import ListNotations.
 
 Theorem c05_next_is_first_free : forall (last : Z) (s : list Z), 0 <= last <= MAX -> Z.of_nat (length s) < MAX - 1 -> exists d : nat, next_msgid last s = Found (cand last (Z.of_nat (S d))) /\ 1 <= cand last (Z.of_nat (S d)) <= MAX /\ ~ In (cand last (Z.of_nat (S d))) s /\ (forall i : Z, 0 < i < Z.of_nat (S d) -> In (cand last i) s).
@@ -29,6 +29,18 @@ Proof. exact ConnAlloc.alloc_untouched. Qed.
 Theorem c05_crossed_starts : let r1 := mkResp 1 RDone 11 in let r2 := mkResp 2 RDone 22 in let s := run as_is [Alloc KSingle None; Alloc KSingle None; Enqueue 1; Enqueue 0; DrvOp; DrvOp; ServerSend r1; ServerSend r2; DrvResp; DrvResp; CliPoll 0; CliPoll 1] in map fst (wout s) = [2; 1] /\ option_map o_status (getop s 0%nat) = Some (COk (Some r1)) /\ option_map o_status (getop s 1%nat) = Some (COk (Some r2)) /\ inuse s = [].
 Proof. exact ConnAlloc.crossed_starts. Qed.
 
+Theorem c05_wrap_bookkeeping : forall (f : fixes) (evs : list ev), let s := run f evs in NoDup (inuse s) /\ (forall i : Z, In i (inuse s) -> 1 <= i <= MAX) /\ 0 <= last s <= MAX.
+Proof. exact ConnWrap.c05_wrap_bookkeeping. Qed.
+
+Theorem c05_wrap_from_any_state : forall (s : st) (evs : list ev), 0 <= last s <= MAX -> NoDup (inuse s) -> (forall i : Z, In i (inuse s) -> 1 <= i <= MAX) -> let s' := fold_left step evs s in NoDup (inuse s') /\ (forall i : Z, In i (inuse s') -> 1 <= i <= MAX) /\ 0 <= last s' <= MAX.
+Proof. exact ConnWrap.c05_wrap_from_any_state. Qed.
+
+Theorem c05_wrap_alloc_fresh : forall (s : st) (k : kind) (tmo : option Z) (c : cop), 0 <= last s <= MAX -> getop (step s (Alloc k tmo)) (length (ops s)) = Some c -> ~ In (o_mid c) (inuse s) /\ 1 <= o_mid c <= MAX /\ inuse (step s (Alloc k tmo)) = o_mid c :: inuse s /\ last (step s (Alloc k tmo)) = o_mid c.
+Proof. exact ConnWrap.c05_wrap_alloc_fresh. Qed.
+
+Theorem c05_wrap_witness : 0 <= last s_wrap <= MAX /\ NoDup (inuse s_wrap) /\ (forall i : Z, In i (inuse s_wrap) -> 1 <= i <= MAX) /\ map o_mid (ops (fold_left step [Alloc KSingle None; Start KSingle None] s_wrap)) = [3; 4] /\ inuse (fold_left step [Alloc KSingle None; Start KSingle None] s_wrap) = [4; 3; MAX; 1; 2].
+Proof. exact ConnWrap.c05_wrap_witness. Qed.
+
 Print Assumptions c05_next_is_first_free.
 Print Assumptions c05_ids_in_order.
 Print Assumptions c05_wrap_example.
@@ -37,3 +49,7 @@ Print Assumptions c05_start_is_alloc_then_enqueue.
 Print Assumptions c05_allocated_is_inert.
 Print Assumptions c05_held_operation_untouched.
 Print Assumptions c05_crossed_starts.
+Print Assumptions c05_wrap_bookkeeping.
+Print Assumptions c05_wrap_from_any_state.
+Print Assumptions c05_wrap_alloc_fresh.
+Print Assumptions c05_wrap_witness.
